@@ -182,32 +182,6 @@ func checkEchoKeepsRest(c *Ctx, r *Report, read *ssa.Function) {
 	}
 }
 
-// checkNetconfScanEveryPass: every pass of the NETCONF read loop tests the buffer for a complete message, whether or
-// not the poll returned new bytes (the remainder kept after an echo is examined by such a pass).
-func checkNetconfScanEveryPass(c *Ctx, r *Report, read *ssa.Function) {
-	rule := "C08/scan-every-pass"
-	chRead := c.LookupFunc("channel", "Channel", "Read")
-	pp := c.LookupField("channel", "Channel", "PromptPattern")
-	if chRead == nil || pp == nil {
-		r.Anchor(rule, "(*channel.Channel).Read / channel.Channel.PromptPattern")
-		return
-	}
-	isMatch := func(in ssa.Instruction) bool { return isDelimiterTest(in, pp, 0) }
-	n := 0
-	for _, ci := range staticCallsTo(read, chRead) {
-		n++
-		rr := reachFrom(read, ci, isMatch, nil)
-		if rr.visited[ci] {
-			r.Bad(rule, "NETCONF reader poll loop", c.Pos(ci.Pos()), "a pass of the read loop can go back to polling without testing the buffer for a complete message (e.g. when the poll returned nothing): a reply that is already complete in the buffer -- what was kept after trimming the echo -- is not filed until further bytes arrive, the call times out, and a later message is glued to it", rr.witness(c, ci)...)
-		} else {
-			r.OK(rule, "NETCONF reader poll loop", c.Pos(ci.Pos()), "every path from the poll back to the poll tests the delimiter pattern")
-		}
-	}
-	if n == 0 {
-		r.Unk(rule, "NETCONF reader poll loop", c.Pos(read.Pos()), "the reader does not call Channel.Read")
-	}
-}
-
 // isDelimiterTest: a regexp call on the channel's prompt (= delimiter) pattern, or a call of a library function that
 // performs one (the test may live in a helper of the reader).
 func isDelimiterTest(in ssa.Instruction, pp *types.Var, depth int) bool {
